@@ -22,6 +22,7 @@ func init() {
 			"R3 the constructor fills every handler-interface cast field from a type assertion to that field's own interface on every path, and checkHandler admits exactly that set and panics otherwise; " +
 			"R4 Fire* entry points start at head (tail for write) and call the member of their own kind with their own argument; head handler is outbound-only; tail handler closes with the same exception; Channel.Write/Trigger pass their argument unchanged; " +
 			"R5 IndexOf/LastIndexOf/ContextAt agree on origin, direction and counter. " +
+			"ALSO: ContextAt returns a context only where position >= size is known false; ctx.Write/ctx.Trigger failures are re-fired from the pipeline head (imports listed in RULES.md). " +
 			"DOES NOT DECIDE: position arithmetic of AddHandler for every position, out-of-range behaviour beyond the guard, user handlers' forwarding choices, pipeline mutation during event flow.",
 		Assumptions: []string{"handlers are added before events flow (the property excludes concurrent mutation)"},
 		Run:         runC03,
